@@ -37,7 +37,7 @@ PREAMBLE = ("From Coq Require Import List NArith ZArith Bool.\n"
             "Definition vy_case (c : list N * flag * list value * nat * list value * list N) : nat :=\n"
             "  let '(src, fl, ins, e, st, o) := c in\n"
             "  match parse_source src with\n"
-            "  | Ok p => if core_ok_list false p\n"
+            "  | Ok p => if core_program p\n"
             f"            then (10 * compare_run (run_machine fl {FUEL} ins p) e st o + compare_run (run_ref fl {FUEL} ins p) e st o)%nat\n"
             "            else 55%nat\n"
             "  | _ => 66%nat end.\n")
@@ -207,11 +207,11 @@ def impl_run(item):
     src, inputs, flag = item
     import time
     from vlib import runprog
-    t0 = time.time()
+    t0 = time.process_time()
     r = runprog.run(src, list(inputs), flag)
     err = r["error"]
     code = ERR_CODE.get(err, 9)
-    return (code, r["stack"] if code == 0 else [], r["out"], err, time.time() - t0)
+    return (code, r["stack"] if code == 0 else [], r["out"], err, time.process_time() - t0)
 
 
 def enc_value(v):
@@ -368,7 +368,7 @@ def build_items(env):
     rng = env.rng
     g = CoreGen(rng)
     depth = env.budget(3, 4)
-    n_gen = env.budget(1100, 9000)
+    n_gen = env.budget(1100, 6000)
     progs_ = []
     seen = set()
     while len(progs_) < n_gen:
@@ -396,7 +396,9 @@ def run(env):
                 "-> disagreement; (2) RefSem.eval vs implementation -> the property fails; (3) exact text of transpile(). Both models are "
                 "evaluated inside Coq (vm_compute). Non-trivial = the run agreed AND the program contains a structure or modifier; distinct "
                 "by (program, inputs, flag).")
+    import time
     V.import_repo()
+    t_start = time.time()
     items, generated = build_items(env)
     res = hard_pmap(impl_run, items, soft=env.budget(3, 4), hard=env.budget(9, 12), procs=min(V.NPROC, 10))
     cases, meta = [], []
@@ -421,11 +423,13 @@ def run(env):
             enc = ["VInt (-424242)", "VInt (-424243)"]      # never equal to a model stack: a model that accepts this run differs
         cases.append((it[0], it[2], list(it[1]), code, enc, out))
         meta.append((it, err))
+    t_impl = time.time()
     codes, logs = coq_codes(env.prop, "run", cases, shard=env.budget(60, 80), timeout=env.budget(240, 400))
     for lo, hi, log in logs:
         # one heavy case can starve a shard: re-evaluate its cases one by one, name the culprit
         sub, sublogs = coq_codes(env.prop, f"retry{lo}", cases[lo:hi], shard=1, timeout=60)
         codes[lo:hi] = sub
+    t_coq = time.time()
     dist = {}
     flags_seen = {}
     constructs = {}
@@ -463,6 +467,8 @@ def run(env):
     # exact text of the transpiler on the same programs
     transcorr.check(env, SEEDS + generated[: env.budget(500, 3000)], name="c01text", shard=env.budget(125, 300))
     env.note("runs", {"total": len(items), "compared": len(cases), "skipped": skipped, "coq_unevaluated": unevaluated})
+    env.note("phase_seconds", {"implementation_runs": round(t_impl - t_start, 1), "coq_evaluation": round(t_coq - t_impl, 1),
+                               "text_tie": round(time.time() - t_coq, 1)})
     env.note("outcomes", dist)
     env.note("agreeing_runs_per_flag_set", flags_seen)
     env.note("agreeing_runs_per_construct", constructs)
